@@ -64,6 +64,14 @@ namespace adept {
 
       check_inner_dimensions(left, right);
 
+      if (right.offset(0) < 0) {
+	// BLAS treats a negative increment as a vector stored backwards
+	// from its last element, not from the first as here: copy
+	Array<1,T,RIsActive> right_;
+	right_ = right;
+	return matmul_(left, right_);
+      }
+
       Array<1,T,is_active> ans(left.dimension(0));
 
       Index stride;
@@ -224,6 +232,12 @@ namespace adept {
       if (LIsActive || RIsActive) {
 	throw(invalid_operation("Cannot yet do matmul(SymmMatrix,Vector) when either are active"));
       }
+      if (right.offset(0) < 0) {
+	Array<1,T,RIsActive> right_;
+	right_ = right;
+	return matmul_symmetric<LIsActive>(left_ptr, left_orient, left_dim, left_offset,
+					   left_gradient_index, right_);
+      }
       BLAS_UPLO uplo;
       if (left_orient == ROW_LOWER_COL_UPPER) {
 	uplo = BlasLower;
@@ -299,6 +313,12 @@ namespace adept {
 
       if (LIsActive) {
 	throw(invalid_operation("Cannot yet do matmul(BandMatrix,Vector) for active BandMatrix"));
+      }
+      if (right.offset(0) < 0) {
+	Array<1,T,RIsActive> right_;
+	right_ = right;
+	return matmul_band<LIsActive>(left_ptr, left_order, LDiags, UDiags, left_dim,
+				      left_offset, left_gradient_index, right_);
       }
 
       BLAS_ORDER order;
